@@ -31,6 +31,13 @@ func vh_SRV() {
 	r := n.r
 	vSetContact(r, "c")
 	vAssume(vImplies(r.state == Leader, r.votedFor == "n1")) // N4
+	// replication state left over from an earlier leadership of this incarnation (any values)
+	for _, id := range ids[1:] {
+		if f, ok := r.followers[id]; ok {
+			f.matchIndex = vNondetU64("c.match." + id)
+			f.nextIndex = vNondetU64("c.next." + id)
+		}
+	}
 	prevote := vNondetBool("prevote")
 	votes := vNondetInt("votes")
 	vAssume(vAnd(votes >= 1, votes <= 3))
@@ -103,6 +110,22 @@ func vh_SRV() {
 		vAssert(vAnd(post.term == sent.Term, post.term == mid.term), "C02.leader-of-the-term-votes-were-requested-for")
 		vAssert(vAnd(post.votedFor == "n1", post.durVote == "n1"), "C02|C08.leader-voted-for-itself")
 		vAssert(2*votes > nv, "C02|C09.leader-needs-majority-of-voters")
+		// C07.appendOnly / C15.noop: leadership starts with one no-op entry of the new term, nothing rewritten,
+		// and replication restarts right after the old end of the log
+		vAssert(post.logLen == mid.logLen+1, "C07|C15.new-leader-appends-exactly-one-entry")
+		if post.logLen == mid.logLen+1 {
+			e := n.log.entries[post.logLen-1]
+			vAssert(vAnd(e.Index == mid.lastIndex+1, vAnd(e.Term == post.term, e.EntryType == NoOpEntry)), "C07|C15.new-leader-noop-in-own-term")
+			for i := 0; i < mid.logLen; i++ {
+				vAssert(post.terms[i] == mid.terms[i], "C01|C07.new-leader-keeps-its-log")
+			}
+		}
+		for _, id := range ids[1:] {
+			if f, ok := r.followers[id]; ok {
+				vAssert(vAnd(f.nextIndex == mid.lastIndex+1, f.matchIndex == 0), "C01|C04|C07.new-leader-resets-replication-state")
+			}
+		}
+		vAssert(vAnd(len(r.operationManager.pendingReplicated) == 0, len(r.operationManager.pendingReadOnly) == 0), "C03.new-leader-starts-with-empty-tables")
 		vAssert(post.term == roundTerm, "C02.leader-of-the-round-the-votes-belong-to")
 	}
 	if post.state == Candidate && mid.state == PreCandidate {
